@@ -31,6 +31,14 @@ TNext == /\ l <= Len(Trace)
                                \cup (IF valid /\ E.err = "" /\ <<E.got_min, E.got_max, E.got_preview>> # <<E.min, E.max, E.preview>>
                                      THEN {"C03:recording-lengths-misread"} ELSE {})
                       IN IF v = {} THEN TRUE ELSE PrintT(<<"VIOL", l, v>>)
+              ELSE IF E.ev = "diskcheck"
+              THEN \* C04's disk gate at the storage layer: passes iff the space available to the daemon (measured before
+                   \* and after the call, requests within that interval are not judged) is at least min-disk-space-mb
+                   /\ UNCHANGED mon
+                   /\ LET v == (IF E.err THEN {"C04:disk-check-failed"} ELSE {})
+                               \cup (IF ~E.err /\ E.mb <= E.avail_lo /\ ~E.ok THEN {"C04:disk-check-refuses-with-enough-space"} ELSE {})
+                               \cup (IF ~E.err /\ E.mb > E.avail_hi /\ E.ok THEN {"C04:disk-check-passes-below-min-disk-space"} ELSE {})
+                      IN IF v = {} THEN TRUE ELSE PrintT(<<"VIOL", l, v>>)
               ELSE IF E.ev = "realsinks"
               THEN \* real CPTV recorders on all three sinks, output directory taken away and put back: no panic, every
                    \* published file decodes, and the final isolated blip at frame E.blip is recorded as C02/C03 demand
